@@ -81,7 +81,9 @@ def rule_count_once(check):
         if p.unknown:
             check.bad(R, R + "/unanalysable", hir.loc(f.rec), "; ".join(p.unknown))
             continue
-        calls = [e for e in p.effects if e["kind"] == "call" and e.get("depth") == 0]
+        # calls made by the override itself or by methods of the visitor it is split into
+        own = {f.def_path} | {g.def_path for g in prog.user_fns if (g.rec.get("self_ty") or "").split("<")[0] == (f.rec.get("self_ty") or "").split("<")[0] and not g.rec.get("impl_of_trait")}
+        calls = [e for e in p.effects if e["kind"] == "call" and e.get("in_fn", f.def_path) in own and (e["name"] in HOOK_TRANSFORMS or e["name"] == "update_status")]
         ts = [(i, e) for i, e in enumerate(calls) if e["name"] in HOOK_TRANSFORMS]
         us = [(i, e) for i, e in enumerate(calls) if e["name"] == "update_status"]
         arm = tr.variant_known(p, ())
@@ -110,7 +112,8 @@ def rule_count_once(check):
         fed = False
         if arg.get("k") == "Field" and arg["field"] == "status":
             l = hir.local_of(arg["x"])
-            b = f.bindings().get(l[0]) if l else None
+            hf = prog.by_def.get(us[0][1].get("in_fn")) or f
+            b = hf.bindings().get(l[0]) if l else None
             init = b["origin"][1] if b and b["origin"][0] == "let" else None
             fed = init is not None and hir.peel(init) is te["node"]
         check.expect(fed, R, "%s/%s" % (R, arm), hir.loc(un), "one update_status fed with the status of %s" % te["name"], "update_status is not fed with the status of the result of %s" % te["name"])
